@@ -233,7 +233,8 @@ type heldLock struct {
 }
 
 func (c *Ctx) harnessDepth() int {
-	n := 0
+	// code the engine runs synchronously in place of a spawned goroutine is another goroutine as well
+	n := 1000 * c.goDepth
 	for fr := c.cur; fr != nil; fr = fr.caller {
 		if c.isHarnessFn(fr.fn) {
 			n++
@@ -248,6 +249,10 @@ type lockEdge struct {
 	Where          string
 	// Held: every lock class held at the acquisition (including From), true = held in read mode only
 	Held map[string]bool
+}
+
+func namedClass(n *types.Named) string {
+	return types.TypeString(n, func(p *types.Package) string { return p.Name() })
 }
 
 func (c *Ctx) lockClass(p PtrV) string {
@@ -265,8 +270,8 @@ func (c *Ctx) lockClass(p PtrV) string {
 		case *types.Struct:
 			if n, ok := t.(*types.Named); ok {
 				// restart the name at the innermost named struct: the class of a lock does not depend on where the
-				// struct that declares it is embedded
-				root = n.Obj().Pkg().Name() + "." + n.Obj().Name()
+				// struct that declares it is embedded; instantiations of a generic type are different classes
+				root = namedClass(n)
 				sb.Reset()
 			}
 			if i < u.NumFields() {
@@ -289,7 +294,7 @@ func (c *Ctx) lockClass(p PtrV) string {
 	}
 	if root == "" {
 		if n, ok := p.obj.t.(*types.Named); ok {
-			root = n.Obj().Pkg().Name() + "." + n.Obj().Name()
+			root = namedClass(n)
 		} else {
 			root = p.obj.t.String()
 		}
@@ -903,7 +908,9 @@ func init() {
 	// ---- errgroup: Go(f) runs f synchronously, Wait returns the first error ----
 	reg("(*golang.org/x/sync/errgroup.Group).Go", func(c *Ctx, fn *ssa.Function, a []Value) Value {
 		k := "errgroup:" + a[0].(PtrV).key()
+		c.goDepth++
 		r := c.callValue(a[1], nil, nil).(IfaceV)
+		c.goDepth--
 		if r.t != nil && c.extra[k] == nil {
 			c.extra[k] = r
 		}
